@@ -121,13 +121,20 @@ func (resolver *referenceResolver) packageForToken(source cueast.Node, defaultPa
 		return defaultPackage
 	}
 
+	// several import paths can match (nested libraries): the most specific one wins,
+	// whatever the order in which the map is iterated
+	matchedPath, matchedPkg := "", defaultPackage
 	for importPath, pkg := range resolver.librariesMap {
-		if strings.Contains(filename, importPath) {
-			return pkg
+		if !strings.Contains(filename, importPath) {
+			continue
+		}
+
+		if len(importPath) > len(matchedPath) || (len(importPath) == len(matchedPath) && importPath < matchedPath) {
+			matchedPath, matchedPkg = importPath, pkg
 		}
 	}
 
-	return defaultPackage
+	return matchedPkg
 }
 
 func (resolver *referenceResolver) resolveImportAlias(alias string) string {
